@@ -43,6 +43,14 @@ static TRUSTED_PATHS: RwLock<BTreeMap<u64, PathBuf>> = RwLock::new(BTreeMap::new
 
 static BASE_TIME: AtomicBaseTime = AtomicBaseTime::new();
 
+/// Verification hook H3: the module's base time cell, so that a harness can
+/// name the objects `get_base_time_unlocked` touches.
+#[cfg(woodpile_verif)]
+#[doc(hidden)]
+pub fn verif_base_time() -> &'static AtomicBaseTime {
+    &BASE_TIME
+}
+
 /// Adds `path` to the set of trusted paths for the NFS vouching module.
 ///
 /// Any file stored on the same device as `path` is assumed to have a
